@@ -64,3 +64,6 @@ func (c *Ctx) WrittenOnlyByInit(g *ssa.Global) bool { return c.writtenOnlyByInit
 
 // MinLen: length of the shortest word of the regular expression.
 func MinLen(re *syntax.Regexp) int { return minLen(re) }
+
+// ReachFrom: the blocks reachable from b (b itself only if it lies on a cycle).
+func ReachFrom(b *ssa.BasicBlock) map[*ssa.BasicBlock]bool { return reachFrom(b) }
